@@ -773,8 +773,12 @@ class DocutilsRenderer(RendererProtocol):
         # TODO this is purely to mimic docutils, but maybe we don't need it?
         # (since we have the slugify logic below)
         name = nodes.fully_normalize_name(implicit_text)
-        node["names"].append(name)
+        # only register the implicit name here: explicit names (e.g. from an ``{#id}``
+        # attribute) are already registered, and would be flagged as duplicates of themselves
+        explicit_names = node["names"]
+        node["names"] = [name]
         self.document.note_implicit_target(node, node)
+        node["names"] = explicit_names + node["names"]
 
         if level > self.md_config.heading_anchors:
             return
